@@ -8,13 +8,16 @@ from typing import Any, Callable, Dict, List, Optional, Sequence, Tuple
 
 from props import common
 from props.common import Ctx, Outcome
-from vlib.normalise import NORMALISERS, PREDICATES
+from vlib.normalise import GUARDS, NORMALISERS, PREDICATES, pin_holds
 
 # check functions are registered by the property modules before the pool forks
 CHECKS: Dict[str, Callable[[str, Dict[str, Any]], Tuple[List[Any], Any]]] = {}
 
 
 def _attribute(check: Callable[..., Any], src: str, spec: Dict[str, Any], f: Any, known: Sequence[Dict[str, Any]]) -> Optional[str]:
+    if re.search(r"crash|build|raised", f.kind):
+        # no listed finding is an internal error of tealer: an exception on a valid program is always reported
+        return None
     for k in known:
         m = k.get("match", {})
         preds = m.get("predicate", [])
@@ -26,12 +29,17 @@ def _attribute(check: Callable[..., Any], src: str, spec: Dict[str, Any], f: Any
             continue
         if "obligation" in m and not re.search(m["obligation"], f.kind):
             continue
+        if "guard" in m and re.search(m.get("guard_kinds", "."), f.kind) and not GUARDS[m["guard"]](src):
+            continue
         norm = NORMALISERS[m["normaliser"]](src)
         if norm is None or norm == src:
             continue
         fs2, _ = check(norm, spec)
         same = [g for g in fs2 if g.kind == f.kind and g.block_line == f.block_line]
         if not same:
+            if "pin" in m and pin_holds(m["pin"], src) is False:
+                # tealer does not treat the program the way the listed finding says: this is something else
+                continue
             return k["id"]
     return None
 
